@@ -13,13 +13,15 @@ MCStep ==
   \/ \E k \in Peers, inc \in BOOLEAN : Connect(k, inc) /\ Spend(k, "c")
   \/ \E k \in Peers : FrameStep(k) /\ Spend(k, "f")
   \/ \E k \in Peers : (HTickKA(k) \/ \E dl \in Rates, ul \in Rates : HTickStats(k, dl, ul)) /\ Spend(k, "t")
-  \/ \E k \in Peers : (HBroadHave(k) \/ HBroadState(k) \/ \E n \in Pipeline : HReply(k, n)) /\ UNCHANGED fuel
+  \/ \E k \in Peers : (HStart(k) \/ HBroadHave(k) \/ HBroadState(k) \/ \E n \in Pipeline : HReply(k, n)) /\ UNCHANGED fuel
   \/ ManagerStep /\ UNCHANGED fuel
   \/ BroadcastDrained /\ Rotation /\ UNCHANGED fuel
 MCNext == MCStep /\ due' = DueNext
 MCSpec == MCInit /\ [][MCNext]_mcvars
-\* the history-like variables do not influence behaviour; sent is kept (the invariants read it)
-MCView == <<st, mp, round, mq, h, bq, stored, sent, wire, panic, due, ann, fuel>>
+\* `sent` only feeds the per-step properties (C01Step ...), so states that differ in it alone are merged
+MCView == <<st, mp, round, mq, h, bq, stored, wire, panic, due, ann, fuel>>
+CONSTANT MaxQ
+QBound == Len(mq) <= MaxQ
 N2 == (1 :> 1) @@ (2 :> 2)
 N3 == (1 :> 1) @@ (2 :> 2) @@ (3 :> 1)
 N1 == (1 :> 1)
